@@ -97,6 +97,12 @@ def setValueAuto (p : Param α) (v : α) : Except PErr (Param α) :=
           | .error _ => p.setValueBase (limit - Constants.TINY)
       | _ => .error .nonfinite
 
+/-- does `AutoParameter::setValue(v)` write a "Constraint match" line to its message handler
+(AutoParameter.cpp:52-60)?  Exactly when the first plain `setValue` raises; the later attempts
+are silent. -/
+def autoReports (p : Param α) (v : α) : Bool :=
+  p.auto && (match p.setValueBase v with | .error _ => true | .ok _ => false)
+
 /-- virtual `setValue` -/
 def setValue (p : Param α) (v : α) : Except PErr (Param α) :=
   if p.auto then p.setValueAuto v else p.setValueBase v
